@@ -48,7 +48,15 @@ def main(argv):
             case = data["case"] if isinstance(data, dict) and "case" in data else data
             stats = core.Stats()
             try:
-                mod.check(case, stats)
+                try:
+                    mod.check(case, stats)
+                except (core.Violation, core.HarnessError):
+                    raise
+                except Exception as e:
+                    v2 = core.repo_exception_as_violation(e, case)
+                    if v2 is None:
+                        raise
+                    raise v2 from e
             except core.Violation as v:
                 print(f"replayed: clause={v.clause} detail={v.detail[:2000]}")
                 print(f"VIOLATION property={prop_id} replay={replay}")
@@ -69,7 +77,15 @@ def main(argv):
         still_failing_known = set()
         for case in corpus_cases:
             try:
-                mod.check(case, total)
+                try:
+                    mod.check(case, total)
+                except (core.Violation, core.HarnessError):
+                    raise
+                except Exception as e:
+                    v2 = core.repo_exception_as_violation(e, case)
+                    if v2 is None:
+                        raise
+                    raise v2 from e
             except core.Violation as v:
                 key = known_match(v) if known_match else None
                 if key:
